@@ -12,6 +12,12 @@ E5  observation records from 1..64 truly concurrent real threads released by a b
     calls during the whole life of each thread, several sweeps in one process; TLC validates every
     record with the operators of the spec (StableSeq on what the thread saw, the identifier is not
     one any other thread of the process - alive or already exited - ever saw).
+TU  In E2-E5 the calls of every thread alternate between two translation units of the driver
+    (drv_threadid.cpp, drv_threadid_tu2.cpp; which one makes the first call varies per thread): the
+    specification has ONE cache per thread, so a second fetch_add by the same thread (E2/E3) or two
+    different values in one thread's record (E5) is rejected.  E5 also drives the header-only user
+    of threadId(), DistributedRWLock's sub-lock choice, with lock_shared() and unlock_shared()
+    compiled in different units (same sub-lock from both units, the lock is free afterwards).
 """
 import os
 import shutil
@@ -36,8 +42,12 @@ def usable(trace):
 
 def run(ctx):
     thorough = ctx.tier == 'thorough'
-    exe = ctx.build('drv_threadid', ['harness/drv/drv_threadid.cpp', 'harness/ctl/ctl.cpp'],
-                    dispenso=['thread_id.cpp'])
+    # TWO harness translation units call threadId(): the identifier belongs to the thread, not to the
+    # (thread, calling .cpp file) pair, and whatever thread_id.h puts into its includers (inline fast
+    # path, statics) exists once per unit.  Every thread of every engine below alternates its calls
+    # between drv_threadid.cpp and drv_threadid_tu2.cpp; all values of a thread must be equal.
+    exe = ctx.build('drv_threadid', ['harness/drv/drv_threadid.cpp', 'harness/drv/drv_threadid_tu2.cpp',
+                                     'harness/ctl/ctl.cpp'], dispenso=['thread_id.cpp'])
 
     # E1 -------------------------------------------------------------------------------------
     dot = os.path.join(ctx.work, 'cover.dot')
@@ -82,8 +92,9 @@ def run(ctx):
     tr = os.path.join(ctx.work, 'obs.ndjson')
     tot, _ = ctx.driver(exe, args, WHAT, label='E5 1..64 concurrent threads x %d sweeps' % sweeps)
     if usable(tr):
-        ctx.validate(SPEC, 'ThreadIdObs.tla', 'ThreadIdObs.cfg', tr, WHAT, executions=tot.get('completed', 0),
-                     label='E5 observation records')
+        ctx.validate(SPEC, 'ThreadIdObs.tla', 'ThreadIdObs.cfg', tr,
+                     WHAT + ' (one thread = one id from every translation unit and in DistributedRWLock\'s '
+                     'sub-lock choice)', executions=tot.get('completed', 0), label='E5 observation records')
     ctx.cov['observation_records'] = tot.get('steps', 0)
     ctx.sample_trace(tr, 6, skip=1)
     ctx.assumptions += [
